@@ -34,9 +34,21 @@ def overflow_field(facts):
     adt = facts.adts.get(SENDER)
     if not adt:
         return None
-    cands = [f for f in adt["variants"][0]["fields"]
-             if re.search(r"(alloc::vec::Vec|vec_deque::VecDeque|linked_list::LinkedList)<T", f["ty"])]
-    return cands[0]["name"] if len(cands) == 1 else None
+    CONT = r"(alloc::vec::Vec|vec_deque::VecDeque|linked_list::LinkedList)<T"
+    cands = [f for f in adt["variants"][0]["fields"] if re.search(CONT, f["ty"])]
+    if len(cands) == 1:
+        return cands[0]["name"]
+    if not cands:
+        # the list wrapped in a small private struct (`backlog: Backlog<T>` around a VecDeque<T>): the wrapper's methods are
+        # helpers (looked through), the container is the wrapper's one container field
+        inner = []
+        for f in adt["variants"][0]["fields"]:
+            w = facts.adts.get(f["ty"].split("<", 1)[0])
+            if w is not None and len(w["variants"]) == 1 and f["ty"].startswith("fastrace::"):
+                inner += [x for x in w["variants"][0]["fields"] if re.search(CONT, x["ty"])]
+        if len(inner) == 1:
+            return inner[0]["name"]
+    return None
 
 
 def classify_ops(fn, prov, field):
